@@ -3,15 +3,58 @@ from . import coll_common as CC
 from oracles import shapes as SH
 
 FUNCTIONS = ["distance3d.containment.{axis_aligned_bounding_box,sphere_aabb,box_aabb,cylinder_aabb,capsule_aabb,ellipsoid_aabb,disk_aabb,cone_aabb,ellipse_aabb}",
-             "distance3d.colliders.<all collider classes + Margin>.aabb", "distance3d.geometry.convert_box_to_vertices"]
+             "distance3d.colliders.<all collider classes + Margin>.aabb", "distance3d.geometry.convert_box_to_vertices", "distance3d.hydroelastic_contact.RigidBody.aabb / aabbs / aabb_tree / express_in (micro-bodies, through the real AabbTree with 'sort')", "tetrahedral_mesh_aabbs"]
 STUBS = []
-OUTSIDE = ["hydroelastic RigidBody.aabb (see C16/C17 harness)", "poses not on a sweep", "rounding"]
+OUTSIDE = ["RigidBody from the make_* factories (micro-bodies of 1-3 tetrahedra are covered)", "poses not on a sweep", "rounding"]
 BOUNDS = {"quick": "12 shapes (+Margin) x {signed-permutation poses with FULLY symbolic translation in [-1000,1000]^3; rotation sweeps about x,y,z (all angles but pi) composed with 2 base orientations}",
           "thorough": "21 shapes x the same, plus every base orientation for the rotation sweeps"}
 WALL_BUDGET = {"quick": 300, "thorough": 2400}
 
 
+class RigidBodyAabb(CC.Scenario):
+    """hydroelastic RigidBody.aabb() must bound the body's vertices in the world frame
+    (the hydroelastic BVH uses it as a collider AABB)."""
+    prop = "C04"
+    timeout_ms = 8000
+    budget_s = 60
+
+    def __init__(self, args):
+        self.args = args
+        self.params = [("tx", -1000.0, 1000.0), ("ty", -1000.0, 1000.0), ("tz", -1000.0, 1000.0)]
+
+    def build(self, cx):
+        return {"R": CC.R0[self.args["r0"]], "t": [cx.P["tx"], cx.P["ty"], cx.P["tz"]]}
+
+    def call(self, cx, inp):
+        import distance3d.hydroelastic_contact as H
+        from harness.c16 import micro_body
+        rb = micro_body(H, cx, self.args["tets"], (inp["R"], inp["t"]))
+        if self.args.get("history") == "express_first":
+            rb.express_in(cx.arr(SH.pose_rows(CC.R0[5], [0.5, -1.0, 2.0])))
+        if self.args.get("history") == "tree_then_express":
+            rb.aabb()
+            rb.express_in(cx.arr(SH.pose_rows(CC.R0[5], [0.5, -1.0, 2.0])))
+        return rb.aabb()
+
+    def check(self, cx, inp, out, ob):
+        from harness.c15 import TETS
+        from symx.harness import AND, OR, ADD, close
+        V = []
+        for k, nm in enumerate(self.args["tets"]):
+            for v in TETS[nm][0]:
+                V.append(ADD(SH.matvec(inp["R"], [v[0] + 2.0 * k, v[1], v[2]]), inp["t"]))
+        tol = 1e-9 * 1000.0
+        for k in range(3):
+            cs = [v[k] for v in V]
+            ob.require("lo_%d" % k, exact=AND(AND(*[out[k][0] <= c for c in cs]), OR(*[out[k][0] == c for c in cs])),
+                       tol=AND(AND(*[out[k][0] <= c + tol for c in cs]), OR(*[close(out[k][0], c, tol) for c in cs])))
+            ob.require("hi_%d" % k, exact=AND(AND(*[out[k][1] >= c for c in cs]), OR(*[out[k][1] == c for c in cs])),
+                       tol=AND(AND(*[out[k][1] >= c - tol for c in cs]), OR(*[close(out[k][1], c, tol) for c in cs])))
+
+
 def make(family, args):
+    if family == "rigid_body":
+        return RigidBodyAabb(args)
     return CC.AabbScenario("C04", args)
 
 
@@ -28,4 +71,8 @@ def jobs(tier, seed):
         for ai, ax in enumerate([CC.X, CC.Y, CC.Z]):
             for r0 in ([0, 9] if tier == "quick" else [0, 4, 9, 13, 17, 22]):
                 J.append({"family": fam, "args": {"shape": sh, "rot_axis": ax, "r0": r0, "t": CC.TRANSLATIONS[(ai + r0) % 3]}})
+    for tets in (["corner"], ["cube_top", "regular"], ["corner", "flat", "cube_slice"]):
+        for r0 in ([0, 7, 18] if tier == "quick" else range(24)):
+            for hist in (None, "express_first", "tree_then_express"):
+                J.append({"family": "rigid_body", "args": {"tets": tets, "r0": r0, "history": hist}})
     return J
